@@ -86,6 +86,7 @@ def gen_unit(rng):
         big = rng.choice(("x" * 70000, "he said \"hi\", twice " * 3500, list(range(15000)), {"k": "y" * 66000})) if not text else "z" * 70000
         rows[k]["f%d" % rng.randrange(ncols)] = big
     u = {"mode": mode, "names": names, "rows": rows, "opts": {}}
+    u["rowsep"] = rng.choice(["\n", "\n", "\r\n"]) if not text else rng.choice(["\n", "\n", "\r\n", "^^\n", "@@", "@\r\n"])
     if text:
         o = {}
         o["sep"] = rng.choice(["\t", "|", " ; ", "~~", "<>"])
@@ -104,6 +105,8 @@ def gen_unit(rng):
 
 def build_args(unit):
     a = ["-o", unit["mode"]]
+    if unit.get("rowsep", "\n") != "\n":
+        a.append("--row-seperator=" + unit["rowsep"])
     for i, n in enumerate(unit["names"]):
         a.append("--select=.f%d=%s" % (i, n))
     o = unit["opts"]
@@ -182,7 +185,14 @@ def run_unit(ctx, unit):
         d.update(extra or {})
         st.violation(sig + ":" + unit["mode"], msg, unit, d)
 
+    rowsep = unit.get("rowsep", "\n")
     if unit["mode"] == "csv":
+        if rowsep == "\r\n":
+            # every record, the header included, ends in CRLF; for the reader below CRLF and LF are both record ends
+            import re as _re
+            bare = _re.sub(r'"(?:[^"]|"")*"', '""', out)
+            if "\n" in bare.replace("\r\n", ""):
+                return bad("csv-row-separator", "a record does not end with the configured row separator (CR LF)")
         try:
             recs = csvmodel.read(out)
         except csvmodel.CsvError as e:
@@ -204,7 +214,7 @@ def run_unit(ctx, unit):
     # text mode
     oo = unit["opts"]
     sep = oo["sep"]
-    lines = out.split("\n")
+    lines = out.split(rowsep)
     if lines[-1] != "":
         return bad("text-last-row", "output does not end with the row separator")
     lines = lines[:-1]
